@@ -6,7 +6,8 @@
 * the texture string table: what `_lmp_write_textures` searches for in the block written so far, what it appends when
   nothing is found, the longest name its guard lets through, the window in which `_lmp_read_textures` looks for the
   terminator, and the codecs of both sides;
-* (see c11_records.py for the per-record field orders.)
+* (see c11_records.py for the per-record field orders and c11_dedup.py for the keys of the de-duplicating index tables,
+  c11_helpers.py for helper properties handed to pack calls.)
 
 Fail-closed: every statement of the decisive loops must be recognised, otherwise TranslateError.
 """
@@ -375,16 +376,18 @@ def nl(xs: list[int]) -> str:
 
 
 def translate() -> tuple[str, dict]:
-    from translate import c11_records
+    from translate import c11_dedup, c11_helpers, c11_records
     tree = ast.parse(src_text('bsp.py'))
     r_expr, r_passes, r_src = vis_reader(tree)
     w_expr, w_guard, w_src = vis_writer(tree)
     tx = textures(tree)
     rec_text, rec_side = c11_records.generate(tree)
     et = ent_text(tree)
-    L = ['(* GENERATED by translate/c11_glue.py + c11_records.py from src/srctools/bsp.py. Do not edit. *)',
+    dd_text, dd_side = c11_dedup.generate(tree)
+    hp_text, hp_side = c11_helpers.generate(tree)
+    L = ['(* GENERATED by translate/c11_glue.py + c11_records.py + c11_dedup.py + c11_helpers.py from src/srctools/bsp.py, binformat.py, vmf.py. Do not edit. *)',
          'From Coq Require Import List String NArith ZArith.',
-         'From SV Require Import Fmt.BspVisRow Fmt.BspTexStrings Fmt.BspRecords Fmt.BspEntLump.',
+         'From SV Require Import Fmt.BspVisRow Fmt.BspTexStrings Fmt.BspRecords Fmt.BspEntLump Fmt.BspDedup Fmt.BspFlagSplit.',
          'Import ListNotations.', 'Open Scope string_scope.',
          f'(* runlength_decode: {r_src} *)',
          f'Definition vis_row_reader : rexp := {r_expr}.',
@@ -396,11 +399,13 @@ def translate() -> tuple[str, dict]:
          f'Definition tex_codec_same : bool := {"true" if tx["codec_same"] else "false"}.',
          f'Definition ent_cfg : entcfg := ({et["key_mode"]}, {et["value_mode"]}, {et["out_name_mode"]}, [{"; ".join(et["out_field_modes"])}]).',
          f'Definition ent_output_sep : N := {et["output_sep"]}%N.',
-         rec_text, '']
+         rec_text, dd_text, hp_text, '']
     side = {'vis_row_reader': r_src, 'vis_row_writer': w_src, 'vis_reader_passes_cluster_count': r_passes,
             'vis_writer_checks_row_length': w_guard, 'textures': tx}
     side['ent_text'] = et
     side.update(rec_side)
+    side.update(dd_side)
+    side.update(hp_side)
     return '\n'.join(L), side
 
 
